@@ -386,6 +386,19 @@ def updatePageTable (newRoot : Nat) (name : Bytes) : SM (List WalRec) := do
     modifyS fun s => { s with hdr := { s.hdr with nextLSN := s.hdr.nextLSN + 1 } }
     pure [⟨c_OpUpdate, lsn, c.2, c.1.key, buf⟩]
 
+/-- `repointPageTable` (recovery): the catalog entry naming root `old` names `new` instead -/
+def repointPageTable (old new lsn : Nat) : SM Unit := do
+  let s ← getS
+  let cells ← scanRight s.hdr.ptRoot
+  let hit ← findFirstM (fun (c : LeafCell × Nat) => do
+    let m ← decodeRow pageTableSchema c.1.val
+    if get m "file_offset" == .int old then pure (some (c, m)) else pure none) cells
+  match hit with
+  | none => pure ()
+  | some (c, m) =>
+    let buf ← encodeRow pageTableSchema (("file_offset", .int new) :: m)
+    updateCellAt c.2 c.1.key buf lsn
+
 /-- `RelationService.Insert` -/
 def insert (table : Bytes) (cols : List String) (vals : List Val) : SM (List WalRec) := do
   let off ← relationOffset table
